@@ -19,10 +19,12 @@ def build_model(spec, cfgspec, json_bytes, flavor, use_cache):
     """Generate with the real dznpy and compile.  With use_cache the binary is kept in a content-addressed cache
     whose key covers every compiler input (generated files, mock header, glue, harness sources, flags)."""
     files = worldA.generate_files(spec, cfgspec, json_bytes)
+    ccfg = worldA.companion_cfg(spec, cfgspec)
+    cfiles = worldA.generate_files(spec, ccfg, json_bytes) if ccfg is not None else None
     if not use_cache:
-        return worldA.prepare_model(spec, cfgspec, json_bytes, flavor, engine.SCRATCH_ROOT, files=files), False
+        return worldA.prepare_model(spec, cfgspec, json_bytes, flavor, engine.SCRATCH_ROOT, files=files, companion_files=cfiles), False
     h = hashlib.sha256()
-    for name, contents, _ in files:
+    for name, contents, _ in files + (cfiles or []):
         h.update(name.encode() + b'\0' + contents.encode('utf-8') + b'\0')
     h.update(cxxgen.gen_model_header(spec).encode())
     h.update(cxxgen.gen_glue(spec, cfgspec).encode())
@@ -42,7 +44,7 @@ def build_model(spec, cfgspec, json_bytes, flavor, use_cache):
         mb.files = files
         mb.static_facts = json.load(open(done))['static_facts']
         return mb, True
-    mb = worldA.prepare_model(spec, cfgspec, json_bytes, flavor, engine.SCRATCH_ROOT, files=files)
+    mb = worldA.prepare_model(spec, cfgspec, json_bytes, flavor, engine.SCRATCH_ROOT, files=files, companion_files=cfiles)
     try:
         os.makedirs(CACHE_DIR, exist_ok=True)
         tmp = cdir + f'.tmp{os.getpid()}'
